@@ -12,7 +12,8 @@
       [reset] — which the harness determines by probing the real code once with the
       five-call reproduction (observe, stabilize, unobserve, set, observe+stabilize): [false]
       = the code as it is, [true] = the repaired code — so the same cases file replays
-      before and after the repair.
+      before and after the repair.  The replay also checks that the event history the calls
+      amount to is one the discipline [admissible] of Fold.v admits.
     - [CReduce]: the current values of the inputs of a ReduceBalanced over a non-commutative
       associative operation (composition of affine maps modulo 101, a map x -> a*x+b being
       encoded as a*101+b) and the root's value.
@@ -57,35 +58,47 @@ Section UafRun.
   Definition notifications (linked : bool) (queued : list nat) : list (ev (A:=Z)) :=
     if linked then flat_map (fun j => replicate (multiplicity j) (Notify j)) queued else [].
 
-  (* None = the recorded pass contradicts what the graph model allows *)
-  Definition api_step (m : mini) (o : aop) : option (res mini) :=
-    let w := m_w m in
-    let linked := w_linked w in
+  (* the events an API call amounts to; None = the recorded pass contradicts what the graph
+     model allows *)
+  Definition api_events (m : mini) (o : aop) : option (list (ev (A:=Z))) :=
+    let linked := w_linked (m_w m) in
     match o with
-    | ASet i x =>
-      let q := if (linked && negb (multiplicity i =? 0)%nat) || isin i kept
-               then (if isin i (m_queued m) then m_queued m else m_queued m ++ [i]) else m_queued m in
-      Some (w' <-! mstep w (Write i x); Ok (Mini w' q (m_fq m)))
-    | AUnobs =>
-      Some (w' <-! mstep w Unlink; Ok (Mini w' (filter (fun i => isin i kept) (m_queued m)) false))
-    | AObs =>
-      Some (w' <-! mstep w Relink; Ok (Mini w' (m_queued m) true))
+    | ASet i x => Some [Write i x]
+    | AUnobs => Some [Unlink]
+    | AObs => Some [Relink]
     | AStab ok ran =>
       let fq := m_fq m || (linked && existsb (fun j => negb (multiplicity j =? 0)%nat) (m_queued m)) in
-      if (if ok then negb (Bool.eqb ran fq) else ran && negb fq) then None else
-      Some (w' <-! mrun w (notifications linked (m_queued m));
-            w'' <-! (if ran then mstep w' Recompute else Ok w');
-            Ok (Mini w'' [] (fq && negb ran)))
+      if (if ok then negb (Bool.eqb ran fq) else ran && negb fq) then None
+      else Some (notifications linked (m_queued m) ++ (if ran then [Recompute] else []))
     end.
 
-  Fixpoint replay (m : mini) (tr : list (aop * Z)) (i : nat) : option nat :=
+  (* the graph's bookkeeping after the call *)
+  Definition api_book (m : mini) (o : aop) (w' : world) : mini :=
+    let linked := w_linked (m_w m) in
+    match o with
+    | ASet i x =>
+      Mini w' (if (linked && negb (multiplicity i =? 0)%nat) || isin i kept
+               then (if isin i (m_queued m) then m_queued m else m_queued m ++ [i]) else m_queued m) (m_fq m)
+    | AUnobs => Mini w' (filter (fun i => isin i kept) (m_queued m)) false
+    | AObs => Mini w' (m_queued m) true
+    | AStab ok ran =>
+      let fq := m_fq m || (linked && existsb (fun j => negb (multiplicity j =? 0)%nat) (m_queued m)) in
+      Mini w' [] (fq && negb ran)
+    end.
+
+  (* Some i = the first call whose observation differs; Some (number of calls) = the event
+     history the calls amount to is not one the discipline [admissible] admits *)
+  Fixpoint replay (m : mini) (tr : list (aop * Z)) (i : nat) (h : list (ev (A:=Z))) : option nat :=
     match tr with
-    | [] => None
+    | [] => if admissibleb inputs false [] h then None else Some i
     | (o, expected) :: tr =>
-      match api_step m o with
-      | Some (Ok m') =>
-        if value (w_f (m_w m')) =? expected then replay m' tr (S i) else Some i
-      | _ => Some i
+      match api_events m o with
+      | Some es =>
+        match mrun (m_w m) es with
+        | Ok w' => if value (w_f w') =? expected then replay (api_book m o w') tr (S i) (h ++ es) else Some i
+        | _ => Some i
+        end
+      | None => Some i
       end
     end.
 End UafRun.
@@ -133,7 +146,7 @@ Definition check (reset : bool) (c : case) : option nat :=
   match c with
   | CUaf k inputs vals kept tr =>
     replay reset k inputs kept
-           (Mini (init (A:=Z) (B:=Z) 0 (f_initial k) inputs (store_of vals)) [] false) tr 0
+           (Mini (init (A:=Z) (B:=Z) 0 (f_initial k) inputs (store_of vals)) [] false) tr 0 []
   | CReduce leaves got =>
     if bool_decide (reduce_value leaves = Some got) then None else Some 0%nat
   | CPlain k values got =>
